@@ -410,6 +410,7 @@ def verify_scenario(world: World, ct: Contract, sc: Scenario, budget_ms=400, max
             for k, v in list(env.items()):
                 if isinstance(v, (Obj, SeqV, Arr2V, MapV)):
                     cenv["old_" + k] = snapshot(v)
+                    cenv["live_" + k] = v  # the caller's object itself (for aliasing clauses)
                     if not isinstance(v, Obj):
                         cenv[k] = cenv["old_" + k]
             for req in list(ct.requires) + list(sc.requires):
